@@ -122,4 +122,168 @@ theorem comparePre_nil_left {sys : System} {q : List Bytes} (h : (comparePre sys
   | nil => rfl
   | cons x xs => simp [comparePre] at h
 
+/-! ### the three merge shapes, on points -/
+
+theorem merge_contain (a b c d v : Pt s) (ao bo co dO : Bool)
+    (hcd : c < d ∨ (c ≤ d ∧ co = false ∧ dO = false))
+    (hle : a < c ∨ ((a ≤ c ∧ c ≤ a) ∧ (ao = true → co = true))) (hdb : d ≤ b) :
+    inItv a ao b (if b ≤ d ∧ d ≤ b then bo && dO else bo) v ↔ (inItv a ao b bo v ∨ inItv c co d dO v) := by
+  unfold inItv
+  by_cases h : b ≤ d ∧ d ≤ b
+  · simp only [h, and_self, ↓reduceIte]
+    cases ao <;> cases bo <;> cases co <;> cases dO <;> simp at hcd hle ⊢ <;> grind
+  · simp only [h, ↓reduceIte]
+    cases ao <;> cases bo <;> cases co <;> cases dO <;> simp at hcd hle ⊢ <;> grind
+
+theorem merge_extend (a b c d v : Pt s) (ao bo co dO : Bool)
+    (hab : a < b ∨ (a ≤ b ∧ ao = false ∧ bo = false))
+    (hcd : c < d ∨ (c ≤ d ∧ co = false ∧ dO = false))
+    (hle : a < c ∨ ((a ≤ c ∧ c ≤ a) ∧ (ao = true → co = true))) (hcb : ¬ b < c)
+    (hopen : ¬ (bo = true ∧ co = true)) (hbd : ¬ d ≤ b) :
+    inItv a ao d dO v ↔ (inItv a ao b bo v ∨ inItv c co d dO v) := by
+  unfold inItv
+  cases ao <;> cases bo <;> cases co <;> cases dO <;> simp at hab hcd hle hopen ⊢ <;> grind
+
+theorem merge_abut (a b c d v : Pt s) (ao dO : Bool)
+    (hab : a < b ∨ (a ≤ b ∧ ao = false))
+    (hcd : c ≤ d) (hbc : b < c) (hgap : ¬ (b < v ∧ v < c)) :
+    inItv a ao d dO v ↔ (inItv a ao b false v ∨ inItv c false d dO v) := by
+  unfold inItv
+  cases ao <;> cases dO <;> simp at hab ⊢ <;> grind
+
+/-! ### one iteration of the inner loop -/
+
+/-- What one inner iteration guarantees. -/
+def Step (s : System) (P : Version → Prop) (this next this' : Span) : InnerCtl → Prop
+  | .merge => SpanOK s this' ∧ this'.rank ≠ .empty ∧ this'.min = this.min ∧ this'.minOpen = this.minOpen ∧
+      AllB P this' ∧ ∀ v, SeamFree s P v → has s this' v = (has s this v || has s next v)
+  | _ => this' = this
+
+/-- The part of one inner iteration after the disjointness tests. -/
+def mergeTail (s : System) (this next : Span) (a b c d : Version) : Outcome (Span × InnerCtl) :=
+  if (this.maxOpen && next.minOpen) = true then Outcome.ok (this, InnerCtl.cont)
+  else if (!comparePre a.sys a.pre b.pre == 0) = true then Outcome.ok (this, InnerCtl.cont)
+  else if (!comparePre a.sys a.pre c.pre == 0) = true then Outcome.ok (this, InnerCtl.cont)
+  else if (!comparePre a.sys a.pre d.pre == 0) = true then Outcome.ok (this, InnerCtl.cont)
+  else if (next.rank == Rank.empty) = true then Outcome.ok (this, InnerCtl.merge)
+  else if decide (pt s d ≤ pt s b) = true then
+    Outcome.ok (if decide (pt s b ≤ pt s d ∧ pt s d ≤ pt s b) = true then
+        { rank := this.rank, minOpen := this.minOpen, maxOpen := this.maxOpen && next.maxOpen,
+          min := some a, max := some b }
+      else this, InnerCtl.merge)
+  else
+    Outcome.ok ({ rank := Rank.vector, minOpen := this.minOpen, maxOpen := next.maxOpen,
+                  min := some a, max := some d }, InnerCtl.merge)
+
+theorem bool_eq_of_iff {x y : Bool} (h : x = true ↔ y = true) : x = y := by
+  cases x <;> cases y <;> simp_all
+
+theorem mergeTail_spec (P : Version → Prop) {this next : Span} {a b c d : Version}
+    (ht : SpanOK s this) (htne : this.rank ≠ .empty) (h1 : this.min = some a) (h2 : this.max = some b)
+    (hn : SpanOK s next) (hnne : next.rank ≠ .empty) (h3 : next.min = some c) (h4 : next.max = some d)
+    (hle : MinLE s this next) (hPt : AllB P this) (hPn : AllB P next)
+    (hroute : ¬ pt s b < pt s c ∨ (this.maxOpen = false ∧ next.minOpen = false ∧ b.pre = [] ∧
+      ∃ m, (b.fill 0).inc = .ok m ∧ ¬ pt s m < pt s c)) :
+    ∃ this' ctl, mergeTail s this next a b c d = .ok (this', ctl) ∧ Step s P this next this' ctl := by
+  obtain ⟨a', b', e1, e2, ha, hb, hab, hfl, hu, hvec⟩ := ht.bounds htne
+  rw [h1] at e1; cases e1
+  rw [h2] at e2; cases e2
+  obtain ⟨c', d', e3, e4, hc, hd, hcd, nfl, -, -⟩ := hn.bounds hnne
+  rw [h3] at e3; cases e3
+  rw [h4] at e4; cases e4
+  obtain ⟨a', c', e1, e3, hle⟩ := hle
+  rw [h1] at e1; cases e1
+  rw [h3] at e3; cases e3
+  have hab' : pt s a < pt s b ∨ (pt s a ≤ pt s b ∧ this.minOpen = false ∧ this.maxOpen = false) := by
+    rcases hfl with h | h
+    · exact Or.inl h
+    · exact Or.inr ⟨hab, h⟩
+  have hcd' : pt s c < pt s d ∨ (pt s c ≤ pt s d ∧ next.minOpen = false ∧ next.maxOpen = false) := by
+    rcases nfl with h | h
+    · exact Or.inl h
+    · exact Or.inr ⟨hcd, h⟩
+  unfold mergeTail
+  by_cases q1 : (this.maxOpen && next.minOpen) = true
+  · exact ⟨this, .cont, by simp only [q1, ↓reduceIte], rfl⟩
+  simp only [q1, Bool.false_eq_true, ↓reduceIte]
+  by_cases q2 : (!comparePre a.sys a.pre b.pre == 0) = true
+  · exact ⟨this, .cont, by simp only [q2, ↓reduceIte], rfl⟩
+  simp only [q2, Bool.false_eq_true, ↓reduceIte]
+  by_cases q3 : (!comparePre a.sys a.pre c.pre == 0) = true
+  · exact ⟨this, .cont, by simp only [q3, ↓reduceIte], rfl⟩
+  simp only [q3, Bool.false_eq_true, ↓reduceIte]
+  by_cases q4 : (!comparePre a.sys a.pre d.pre == 0) = true
+  · exact ⟨this, .cont, by simp only [q4, ↓reduceIte], rfl⟩
+  simp only [q4, Bool.false_eq_true, ↓reduceIte]
+  have hnne' : (next.rank == Rank.empty) = false := by simpa using hnne
+  simp only [hnne', Bool.false_eq_true, ↓reduceIte, decide_eq_true_eq]
+  have hopen : ¬ (this.maxOpen = true ∧ next.minOpen = true) := by simpa using q1
+  -- the gap between `this.max` and `next.min` holds no candidate
+  have hgap : ∀ v, SeamFree s P v → pt s b < pt s c → ¬ (pt s b < pt s v ∧ pt s v < pt s c) := by
+    intro v hv hbc
+    rcases hroute with h | ⟨-, -, hbpre, m, hm, hmc⟩
+    · exact absurd hbc h
+    · have hapre : a.pre = [] := by
+        rw [hbpre] at q2
+        exact comparePre_nil_right (by simpa using q2)
+      have hcpre : c.pre = [] := by
+        rw [hapre] at q3
+        exact comparePre_nil_left (by simpa using q3)
+      exact hv b c (hPt.2 b h2) (hPn.1 c h3) ⟨hbpre, hcpre, hbc, m, hm, hmc⟩
+  by_cases q5 : pt s d ≤ pt s b
+  · -- containment: `next ⊆ this` up to the flag of a shared upper end
+    rw [if_pos q5]
+    refine ⟨_, .merge, rfl, ?_⟩
+    by_cases q6 : pt s b ≤ pt s d ∧ pt s d ≤ pt s b
+    · rw [if_pos q6]
+      refine ⟨?_, htne, h1.symm, rfl, ⟨fun x hx => hPt.1 x (h1.trans hx), fun x hx => hPt.2 x (h2.trans hx)⟩, ?_⟩
+      · unfold SpanOK
+        cases hr : this.rank with
+        | empty => exact absurd hr htne
+        | unit =>
+          rcases hfl with h | ⟨f1, f2⟩
+          · have := hu hr; subst this; exact absurd h (by grind)
+          · have := hu hr; subst this
+            exact ⟨a, rfl, rfl, ha, f1, by simp [f2]⟩
+        | vector => exact ⟨a, b, rfl, rfl, ha, hb, hvec hr⟩
+      · intro v _
+        rw [has_eq (sp := { rank := this.rank, minOpen := this.minOpen,
+                            maxOpen := this.maxOpen && next.maxOpen, min := some a, max := some b })
+          htne rfl rfl, has_eq htne h1 h2, has_eq hnne h3 h4]
+        apply bool_eq_of_iff
+        rw [Bool.or_eq_true, decide_eq_true_eq, decide_eq_true_eq, decide_eq_true_eq]
+        have := merge_contain (pt s a) (pt s b) (pt s c) (pt s d) (pt s v) this.minOpen this.maxOpen
+          next.minOpen next.maxOpen hcd' hle q5
+        simpa only [q6, and_self, ↓reduceIte] using this
+    · rw [if_neg q6]
+      refine ⟨ht, htne, rfl, rfl, hPt, ?_⟩
+      intro v _
+      rw [has_eq htne h1 h2, has_eq hnne h3 h4]
+      apply bool_eq_of_iff
+      rw [Bool.or_eq_true, decide_eq_true_eq, decide_eq_true_eq]
+      have := merge_contain (pt s a) (pt s b) (pt s c) (pt s d) (pt s v) this.minOpen this.maxOpen
+        next.minOpen next.maxOpen hcd' hle q5
+      simpa only [q6, ↓reduceIte] using this
+  · -- extension of `this` up to `next.max`
+    rw [if_neg q5]
+    refine ⟨_, .merge, rfl, ?_⟩
+    have had : pt s a < pt s d := by grind
+    refine ⟨spanOK_vector ha hd had _ _, by simp, h1.symm, rfl,
+      ⟨fun x hx => hPt.1 x (h1.trans hx), fun x hx => hPn.2 x (h4.trans hx)⟩, ?_⟩
+    intro v hv
+    rw [has_eq (sp := { rank := Rank.vector, minOpen := this.minOpen, maxOpen := next.maxOpen,
+                        min := some a, max := some d }) (by simp) rfl rfl,
+      has_eq htne h1 h2, has_eq hnne h3 h4]
+    apply bool_eq_of_iff
+    rw [Bool.or_eq_true, decide_eq_true_eq, decide_eq_true_eq, decide_eq_true_eq]
+    by_cases hbc : pt s b < pt s c
+    · rcases hroute with h | ⟨f1, f2, -, -⟩
+      · exact absurd hbc h
+      · have := merge_abut (pt s a) (pt s b) (pt s c) (pt s d) (pt s v) this.minOpen next.maxOpen
+          (by rcases hab' with h | h; exact Or.inl h; exact Or.inr ⟨h.1, h.2.1⟩) hcd hbc (hgap v hv hbc)
+        rw [f1, f2]
+        exact this
+    · exact merge_extend (pt s a) (pt s b) (pt s c) (pt s d) (pt s v) this.minOpen this.maxOpen
+        next.minOpen next.maxOpen hab' hcd' hle hbc hopen q5
+
 end DepsDev.Proofs.C09
